@@ -46,9 +46,10 @@ ReleaseOk(c) ==
      /\ mon' = LET RECURSIVE F(_, _)
                    F(m, S) == IF S = {} THEN m ELSE LET k == CHOOSE k \in S : TRUE IN F(Step(m, [ev |-> "end", k |-> k, c |-> c, r |-> "obj", v |-> o]), S \ {k})
                IN F(m1, ws)
-  /\ hist' = Append(hist, [a |-> "release", c |-> c, ok |-> TRUE]) /\ UNCHANGED <<prog, stage, calls, fails>>
+  /\ hist' = Append(hist, [a |-> "release", c |-> c, ok |-> TRUE, cancel |-> FALSE]) /\ UNCHANGED <<prog, stage, calls, fails>>
 \* the parked factory call raises: the generating lookup fails, one of the waiters (any) starts a new generation
-ReleaseFail(c) ==
+\* (how = "cancel": instead, the task of the generating lookup is cancelled while the factory awaits - the same for everybody else)
+ReleaseFail(c, how) ==
   /\ pend[c] # 0 /\ fails < MaxFails
   /\ LET g == pend[c]
          ws == {k \in Tasks : pc[k] = "waiting" /\ prog.ctx[k] = c}
@@ -60,9 +61,9 @@ ReleaseFail(c) ==
             /\ pc' = [pc EXCEPT ![g] = "done", ![w] = "generating"] /\ got' = [got EXCEPT ![g] = ErrV]
             /\ mon' = Step(m1, [ev |-> "call", k |-> w, c |-> c])
   /\ fails' = fails + 1
-  /\ hist' = Append(hist, [a |-> "release", c |-> c, ok |-> FALSE]) /\ UNCHANGED <<prog, stage, obj>>
+  /\ hist' = Append(hist, [a |-> "release", c |-> c, ok |-> FALSE, cancel |-> (how = "cancel")]) /\ UNCHANGED <<prog, stage, obj>>
 Next == \/ \E k \in Tasks : Begin(k)
-        \/ \E c \in Ctxs : ReleaseOk(c) \/ ReleaseFail(c)
+        \/ \E c \in Ctxs : ReleaseOk(c) \/ ReleaseFail(c, "raise") \/ ReleaseFail(c, "cancel")
 Terminal == \A k \in Tasks : pc[k] = "done"
 \* ---- the design satisfies the monitor, and the statement read directly on the state ---------------------------------
 MonOk == mon.ok
